@@ -92,7 +92,15 @@ func (x *Exec) callFunc(fr *Frame, st *State, fn *ssa.Function, args []Value, nb
 		x.applyContract(fr, st, ct, key, fn.Signature, fn, args[nbind:], pos, k)
 		return
 	}
-	if len(fn.Blocks) > 0 && (strings.HasPrefix(fn.Pkg.Pkg.Path(), modulePrefix) || ct != nil) {
+	inRepo := fn.Pkg != nil && strings.HasPrefix(fn.Pkg.Pkg.Path(), modulePrefix)
+	if fn.Pkg == nil && fn.Parent() != nil {
+		for p := fn.Parent(); p != nil; p = p.Parent() {
+			if p.Pkg != nil && strings.HasPrefix(p.Pkg.Pkg.Path(), modulePrefix) {
+				inRepo = true
+			}
+		}
+	}
+	if len(fn.Blocks) > 0 && (inRepo || ct != nil) {
 		// inline
 		for p := fr; p != nil; p = p.parent {
 			if p.fn == fn {
